@@ -1,4 +1,4 @@
-CONSTANTS Scope = "small" Mutant = "none"
+CONSTANTS Scope = "quick" Mutant = "none"
 SPECIFICATION TSpec
 CONSTRAINT Progress
 INVARIANT Inv_OnlyWithRule
@@ -16,5 +16,6 @@ INVARIANT Inv_RoutingHeader
 INVARIANT Inv_Rest
 INVARIANT Inv_CallsExposed
 INVARIANT Inv_OwnWins
+INVARIANT Inv_OwnTransport
 POSTCONDITION Accepted
 CHECK_DEADLOCK FALSE
